@@ -2,6 +2,9 @@ import Hgxv.Model.Wire
 import Hgxv.Model.C16
 import Hgxv.Model.C16Ext
 import Hgxv.Model.C16Deg
+import Hgxv.Model.C16Run
+import Hgxv.Model.C16Guard
+import Hgxv.Model.C16Trunc
 /-! Line protocol for C16 (every line carries its whole input; the only state is the sampler-state record
 `C16.Sampler` used by `new` / `call...`: the other commands leave it alone).
 
@@ -15,6 +18,15 @@ import Hgxv.Model.C16Deg
   `output cfg weights labels|-`                            -> `w,node,...;...` | `none`
   `outd cfg quantiles labels|-`                            -> `w,node,...;...` | `none`   output stage on a chain state that may hold
         hyperedges with fewer than two nodes (nan mean -> non-positive weight): `outputStageD`
+  `fromhygD labels edges burn thins quantiles`             -> `out|out|...` | `none`   whole run `sample(initial_hyg=h)` for a
+        hypergraph that may hold hyperedges with fewer than two nodes: `sampleFromHygD` (one model run, no hypothesis on sizes)
+  `guard N degSeq dimSeq`                                  -> `ok` | `badShape` | `badDim`   the two `assert`s of
+        `_sampling_from_sequences` before `_match_sequences` (`argGuard`)
+  `setstate -|0|1`                                         -> `ok`; the sampler state becomes that value of `matching_sequences`
+  `callseqsN N degSeq dimSeq picks burn thins quantiles`   -> like `callseqs`, argument checks included (`callStepG`): a refused
+        call answers `none state` with the state untouched
+  `tpois u e pmax cdf0,cdf1,...`                           -> draw | `none`   one draw of `sample_truncated_poisson` by the
+        inverse-cdf scheme on exact rationals (`truncDrawTab`): `e` = exp(-rate), the table = Poisson cdf at 0, 1, ...
   `trunc quantiles`                                        -> weights (`np.maximum(quantile, 1)`)
   `fromhyg labels edges burn thins quantiles`              -> `out|out|...` | `none`
   `fromhygQ labels edges burn thins quantiles`             -> `out|out|...` | `none`   labels are rationals `p/q` (any number:
@@ -162,6 +174,25 @@ def stateless (_ : Unit) : List String → Unit × String
       | some os => ((), showOuts os)
       | none => ((), "none")
     | _, _, _, _, _ => ((), "bad-op")
+  | ["tpois", u, e, pm, tab] =>
+    match rat? u, rat? e, rat? pm, rats? tab with
+    | some u, some e, some pmax, some tab =>
+      match truncDrawTab tab u e pmax with
+      | some k => ((), toString k)
+      | none => ((), "none")
+    | _, _, _, _ => ((), "bad-op")
+  | ["guard", n, d, m] =>
+    match nat? n, nats? d, pairs? m with
+    | some N, some degSeq, some dimSeq =>
+      ((), match argGuard N degSeq dimSeq with | .ok => "ok" | .badShape => "badShape" | .badDim => "badDim")
+    | _, _, _ => ((), "bad-op")
+  | ["fromhygD", l, e, b, t, w] =>
+    match nats? l, natss? e, steps? b, blocks? t, natss? w with
+    | some labels, some edges, some burn, some thins, some ws =>
+      match sampleFromHygD labels edges ⟨[], burn, thins, ws⟩ with
+      | some os => ((), showOuts os)
+      | none => ((), "none")
+    | _, _, _, _, _ => ((), "bad-op")
   | ["fromhygQ", l, e, b, t, w] =>
     match rats? l, ratss? e, steps? b, blocks? t, natss? w with
     | some labels, some edges, some burn, some thins, some ws =>
@@ -188,6 +219,18 @@ def stateless (_ : Unit) : List String → Unit × String
 def step (s : Sampler) (toks : List String) : Sampler × String :=
   match toks with
   | ["new"] => (⟨none⟩, "ok")
+  | ["setstate", v] =>
+    if v = "-" then (⟨none⟩, "ok") else
+      match flag? v with
+      | some b => (⟨some b⟩, "ok")
+      | none => (s, "bad-op")
+  | "callseqsN" :: n :: rest =>
+    match nat? n, callOf? ("callseqs" :: rest) with
+    | some N, some c =>
+      match callStepG N s c with
+      | (s', some r) => (s', s!"{showFlag r.report} {showFlag s'.flag} {showOuts r.outs}")
+      | (s', none) => (s', s!"none {showFlag s'.flag}")
+    | _, _ => (s, "bad-op")
   | cmd :: _ =>
     if cmd = "callhyg" || cmd = "callseqs" || cmd = "callmodel" || cmd = "calldeg" || cmd = "calldim" then
       match callOf? toks with
